@@ -51,6 +51,24 @@ CLAIMED = {
              'tokens coincide with each other or with vocabulary words), vf/oracles/conformance.py and '
              'linegrammar.py; schemas outside vf/gen.py and longer texts are outside the claim',
         ref='DESIGN.md section 7 C01'),
+    'C02': dict(
+        text='On every accepting path of the symbolically executed load pipeline (generated schema family, '
+             'symbolic tokens and values) z3 shows that the value tree read through the public section-value '
+             'API equals the tree an independent oracle derives from the schema description: attributes and '
+             'their order, converted values and defaults (conversions are z3 terms on both sides), [] vs '
+             'None, wildcard maps, section type and lower-cased name, section datatype applied.',
+        note='trusted: z3, engine models of primitives (replayed per path), vf/oracles/conformance.py and '
+             'dtspec.py; float and datatypes without a reference conversion are outside the claim',
+        ref='DESIGN.md section 7 C02'),
+    'C07': dict(
+        text='On every feasible path of the loading entry points run on symbolic texts (fully symbolic '
+             'lines and templates through the whole loader), symbolic override specifiers and all include '
+             'graphs over three in-memory resources, the only exception that escapes is a '
+             'ZConfig.ConfigurationError; any other exception class on a feasible path is a counterexample '
+             'whose path condition yields the concrete input.',
+        note='trusted: z3, engine models (replayed per path); openResource is replaced by in-memory '
+             'resources; validator.main is not driven; known finding F7 (include cycle -> RecursionError)',
+        ref='DESIGN.md section 7 C07'),
 }
 
 NOT_YET = 'harness not built yet in this revision (see DESIGN.md section 7 for the plan)'
